@@ -137,7 +137,11 @@ func init() {
 	// make its own integrity comparison vacuous (anon header) or break a second decryption
 	extraRules["C16"] = roTargetsFor("encrypt/ecies.", "encrypt/ibe.", "sign/anon.Encrypt", "sign/anon.Decrypt")
 	extraRules["C08"] = both(stale("sign/schnorr", "sign/eddsa", "sign/anon"), entropyRule("C08"))
-	extraRules["C02"] = entropyRule("C02")
+	extraRules["C02"] = both(entropyRule("C02"), func(c *Ctx) {
+		for _, cfg := range []string{"default", "ct"} {
+			cfgTag(c, cfg, func() { ReduceDiscipline(c, cfg) })
+		}
+	})
 	extraRules["C17"] = entropyRule("C17")
 	extraRules["C19"] = both(entropyRule("C19"), func(c *Ctx) { CheckMustWrite(c, "C19") }, func(c *Ctx) {
 		// XOF clones share no mutable state with their original (EFX-INDEP) and Clone writes nothing
